@@ -16,7 +16,7 @@ DECIDED = [
     "EXIT: the background thread leaves its loop only after observing, in one critical section, an empty queue and finished",
     "SHUTDOWN-ORDER: finished store under lock -> notify -> join -> clean-ups -> release",
     "FOREGROUND: the writer is called between lock and unlock of the channel mutex",
-    "LINE: see NUM obligations (newline room, index never steps over the terminator, writes stay inside the buffer)",
+    "LINE: see NUM obligations (newline room, index never steps over the terminator, writes stay inside the buffer); complete: the allocating formatter sizes the line to hold the message, the subject name and the line's literal characters for all lengths; private-buffer: every caller of the line formatter hands over storage private to the call (automatic or freshly allocated), never static storage",
 ]
 NOT_DECIDED = ["per-thread FIFO order and no-loss under all schedules (only the schedule-independent protocol shape)", "content of the formatted prefix (libc formatting)"]
 ASSUMPTIONS = ["registered log subject names are shorter than 2^20 bytes and one formatted message is shorter than 2^30 bytes (the caller computes the line length in int)", "aws_mutex / condition variable semantics as documented", "aws_array_list push_back/swap_contents/clear have their documented sequence effect (C09)",
@@ -373,6 +373,8 @@ MUTANTS = [
     {"name": "foreground-write-unlocked", "file": CH, "expect": "FOREGROUND",
      "old": "    aws_mutex_lock(&impl->sync);\n    (channel->writer->vtable->write)(channel->writer, log_line);\n    aws_mutex_unlock(&impl->sync);",
      "new": "    aws_mutex_lock(&impl->sync);\n    aws_mutex_unlock(&impl->sync);\n    (channel->writer->vtable->write)(channel->writer, log_line);"},
+    {"name": "line-sized-without-subject", "file": "source/log_formatter.c", "expect": "LINE", "old": "    int total_length = required_length + MAX_LOG_LINE_PREFIX_SIZE + subject_name_len;", "new": "    int total_length = required_length + MAX_LOG_LINE_PREFIX_SIZE;"},
+    {"name": "noalloc-buffer-static", "file": LG, "expect": "LINE", "old": "    char format_buffer[MAXIMUM_NO_ALLOC_LOG_LINE_SIZE];", "new": "    static char format_buffer[MAXIMUM_NO_ALLOC_LOG_LINE_SIZE];"},
     {"name": "separator-index-not-clamped", "file": "source/log_formatter.c", "expect": "LINE",
      "old": "        current_index = s_advance_and_clamp_index(current_index, separator_written, fake_total_length);", "new": "        current_index += (size_t)separator_written;"},
     {"name": "clamp-steps-over-terminator", "file": "source/log_formatter.c", "expect": "LINE",
